@@ -115,9 +115,13 @@ class Evaluator:
                 pn = {}
                 for w in sub.wires.values():
                     if w.port_kind:
+                        outer = self._bits(cell.conns[w.name], env)
+                        if w.port_kind == "inout" and all(b[0] == "n" for b in outer):
+                            # a bidirectional pad passed down the hierarchy is one and the same set of nets
+                            pn[w.name] = [b[1] for b in outer]
+                            continue
                         nets = self._new(w.width)
                         pn[w.name] = nets
-                        outer = self._bits(cell.conns[w.name], env)
                         if w.port_kind == "input":
                             self._add_conn([("n", k) for k in nets], outer)
                         elif w.port_kind == "output":
